@@ -409,6 +409,10 @@ async fn run(case: Value, mode: Mode) -> Outcome {
                         match nlj_fallback {
                             Some(t @ "nlj-fallback-left-emission") if !has_missing => sim::set_tag(t),
                             Some(t @ "nlj-fallback-right-emission") if !has_extra => sim::set_tag(t),
+                            // rows lost, nothing invented, and the join re-read a file scan as its left side
+                            _ if bounded_pool && has_missing && !has_extra && plans.iter().any(sqlsim::nlj_left_reexecution_over_file_scan) => {
+                                sim::set_tag("nlj-fallback-left-reexecution")
+                            }
                             _ => {}
                         }
                         let class = if mode == Mode::Fault && fault_fired { "truncated-success" } else { "wrong-result" };
